@@ -26,6 +26,8 @@ func init() {
 			ruleDefaultsFillOnlyUnset(r, "K11", "/iscp", "/wire")
 			ruleOptionSetters(r, "K12", "conn_options.go")
 			ruleDurationUnits(r, "K13", "/iscp", "/wire")
+			ruleC15K14(r)
+			r.borrow("C07", func() { ruleC07R6(r, newLockEngine(r.P)) }) // a stalled chunk write under the table lock stops the ack router and, behind it, the Pong
 			r.borrow("C06", func() { ruleC06R8(r) }) // a broker ping is never dropped by the demultiplexer
 			r.borrow("C07", func() { ruleC07R2(r) }) // per-alias delivery never blocks the reader that also routes pongs
 			r.borrow("C06", func() { ruleC06R5(r) }) // a request pending when keepalive gives the connection up is released (it may hold the mutex the redial needs)
@@ -537,4 +539,69 @@ func callNameCommon(cc *ssa.CallCommon) string {
 		return "." + f.Name()
 	}
 	return ""
+}
+
+// ruleC15K14: the goroutine that reads the reliable transport and hands every inbound message to its consumer never
+// writes to the transport itself. A write blocks when the peer is not reading; while it blocks nothing is dispatched —
+// including the Pong the keep-alive is waiting for, so a live broker is declared lost. Answers (Pong for a broker
+// Ping, the close after a Disconnect) are written by their own goroutines, fed through channels.
+func ruleC15K14(r *Run) {
+	r.Begin("K14", "the reader never writes: no function of package wire that reads the transport in a loop (the dispatcher) reaches a transport Write or Close, directly or through its static callees (two calls deep; go statements excluded)", 1)
+	p := r.P
+	n := 0
+	for _, fn := range p.Funcs {
+		if fnPkgPath(fn) != modPath+"/wire" || fn.Blocks == nil {
+			continue
+		}
+		// a reader: invokes Read of the transport inside a loop, in its own body or in a function literal of it (the
+		// reading goroutine that feeds the dispatching loop)
+		reads := false
+		withAnon(fn, func(g *ssa.Function) {
+			allInstrs(g, func(ins ssa.Instruction) {
+				if c, ok := ins.(*ssa.Call); ok && c.Call.IsInvoke() && (c.Call.Method.Name() == "Read" || c.Call.Method.Name() == "ReadUnreliable") && inLoop(c) {
+					reads = true
+				}
+			})
+		})
+		if !reads || fn.Parent() != nil {
+			continue
+		}
+		n++
+		name := fnName(fn)
+		var at ssa.Instruction
+		seen := map[*ssa.Function]bool{}
+		var visit func(f *ssa.Function, d int)
+		visit = func(f *ssa.Function, d int) {
+			if f == nil || f.Blocks == nil || seen[f] || d > 2 {
+				return
+			}
+			seen[f] = true
+			allInstrs(f, func(ins ssa.Instruction) {
+				if _, isGo := ins.(*ssa.Go); isGo {
+					return
+				}
+				c, ok := ins.(*ssa.Call)
+				if !ok {
+					return
+				}
+				if c.Call.IsInvoke() && (c.Call.Method.Name() == "Write" || c.Call.Method.Name() == "WriteUnreliable" || c.Call.Method.Name() == "Close" || c.Call.Method.Name() == "CloseWithStatus") && strings.Contains(c.Call.Value.Type().String(), "Transport") {
+					at = ins
+					return
+				}
+				if cal := c.Call.StaticCallee(); cal != nil && fnPkgPath(cal) == modPath+"/wire" {
+					visit(cal, d+1)
+				}
+			})
+		}
+		// the dispatching part: the function itself without the goroutines it starts
+		visit(fn, 0)
+		where := p.pos(fn.Pos())
+		if at != nil {
+			where = posOf(p, at)
+		}
+		r.Check(name+" does not write to the transport", at == nil, where, name, "the goroutine that dispatches inbound messages writes to (or closes) the transport itself: while that call blocks no message is dispatched, the Pong for the client's keep-alive included")
+	}
+	if n == 0 {
+		r.Undecided("transport readers", "no function of package wire reads the transport in a loop")
+	}
 }
